@@ -80,6 +80,7 @@ package grpcgcp
 //@ spec homeReady(gb *gcpBalancer, K string) := K in gb.affinityMap && gb.scStates[gb.affinityMap[K]] == connectivity.Ready
 //@ pred affUnchanged(gb *gcpBalancer) := forall k string :: {k in gb.affinityMap} (k in gb.affinityMap) == old(k in gb.affinityMap) && gb.affinityMap[k] == old(gb.affinityMap[k])
 //@ pred fbUnchanged(gb *gcpBalancer) := forall k string :: {k in gb.fallbackMap} (k in gb.fallbackMap) == old(k in gb.fallbackMap) && gb.fallbackMap[k] == old(gb.fallbackMap[k])
+//@ pred listPrefix(gb *gcpBalancer) := forall i, x in old(gb.scRefList) :: i < len(gb.scRefList) && gb.scRefList[i] == x
 //@ pred homeFrame(gb *gcpBalancer) := forall K string :: {K in gb.affinityMap} old(home(gb, K)) != nil ==> home(gb, K) == old(home(gb, K))
 //@ inv gcpBalancer.mu I13 [C20] := (forall sc in this.scRefs :: $addrs[sc] == this.addrs && $connectRequested[sc]) && (forall sc in this.refreshingScRefs :: $addrs[sc] == this.addrs && $connectRequested[sc])
 //@ mono gcpBalancer.mu [C09.list-prefix] := forall i, x in old(this.scRefList) :: i < len(this.scRefList) && this.scRefList[i] == x
@@ -135,8 +136,10 @@ package grpcgcp
 //@   ensures [C20.addrs-stored] $ret0 == nil ==> gb.addrs == ccs.ResolverState.Addresses
 //@   ensures [C17.fixed] old(gb.cfg != nil) ==> gb.cfg == old(gb.cfg) && gb.methodCfg == old(gb.methodCfg) && gb.unresponsiveDetection == old(gb.unresponsiveDetection)
 //@   ensures [C03.remove-only-old] $removed == old($removed)
-//@   loop 1 invariant forall sc in gb.scRefs :: $visited(sc) ==> $addrs[sc] == addrs && $connectRequested[sc]
-//@   loop 1 invariant forall sc in gb.refreshingScRefs :: $addrs[sc] == old($addrs[sc]) && $connectRequested[sc] == old($connectRequested[sc])
+//@   loop 1 invariant forall sc in gb.refreshingScRefs :: $visited(sc) ==> $addrs[sc] == addrs && $connectRequested[sc]
+//@   loop 1 invariant forall sc in gb.scRefs :: !old(sc in gb.scRefs) ==> $addrs[sc] == addrs && $connectRequested[sc]
+//@   loop 2 invariant forall sc in gb.scRefs :: $visited(sc) ==> $addrs[sc] == addrs && $connectRequested[sc]
+//@   loop 2 invariant forall sc in gb.refreshingScRefs :: $addrs[sc] == addrs && $connectRequested[sc]
 //@   ensures [C01.frame] homeFrame(gb) && affUnchanged(gb) && fbUnchanged(gb)
 //@ func (gb *gcpBalancer) ResolverError
 //@   modifies nothing
@@ -182,11 +185,12 @@ package grpcgcp
 //@   ensures lockinv(gb.mu)
 //@   ensures [C03.initial] $newFail == old($newFail) ==> len(gb.scRefs) == max(old(len(gb.scRefs)), minSizeOf(gb))
 //@   ensures [C03.initial-bound] len(gb.scRefs) <= max(old(len(gb.scRefs)), minSizeOf(gb)) && len(gb.scRefs) >= old(len(gb.scRefs))
-//@   ensures [C09.list-grows] len(gb.scRefList) >= old(len(gb.scRefList))
+//@   ensures [C09.list-grows] len(gb.scRefList) >= old(len(gb.scRefList)) && listPrefix(gb)
 //@   ensures [C01.frame] homeFrame(gb) && affUnchanged(gb) && fbUnchanged(gb)
 //@   ensures [C17.fixed] gb.cfg == old(gb.cfg) && gb.methodCfg == old(gb.methodCfg) && gb.unresponsiveDetection == old(gb.unresponsiveDetection)
 //@   ensures [C20.pool-addrs] (forall sc in gb.scRefs :: !old(sc in gb.scRefs) ==> $addrs[sc] == gb.addrs && $connectRequested[sc]) && gb.addrs == old(gb.addrs)
 //@   loop 1 invariant lockinv(gb.mu) && gb.cfg == old(gb.cfg) && gb.methodCfg == old(gb.methodCfg) && gb.unresponsiveDetection == old(gb.unresponsiveDetection) && gb.addrs == old(gb.addrs)
+//@   loop 1 invariant listPrefix(gb)
 //@   loop 1 invariant len(gb.scRefList) >= old(len(gb.scRefList)) && len(gb.scRefs) >= old(len(gb.scRefs)) && len(gb.scRefs) <= max(old(len(gb.scRefs)), minSizeOf(gb))
 //@   loop 1 invariant $newFail == old($newFail) && homeFrame(gb) && affUnchanged(gb) && fbUnchanged(gb)
 //@   loop 1 invariant forall sc in gb.scRefs :: !old(sc in gb.scRefs) ==> $addrs[sc] == gb.addrs && $connectRequested[sc]
@@ -203,7 +207,7 @@ package grpcgcp
 //@   ensures [C17.no-alias] fresh(gb.cfg) && fresh(gb.cfg.ApiConfig) && fresh(gb.cfg.ApiConfig.ChannelPool)
 //@   ensures [C17.detection-flag] gb.unresponsiveDetection == (gb.cfg.ApiConfig.ChannelPool.UnresponsiveCalls > 0 && gb.cfg.ApiConfig.ChannelPool.UnresponsiveDetectionMs > 0)
 //@   ensures [C03.initial] $newFail == old($newFail) ==> len(gb.scRefs) == max(old(len(gb.scRefs)), minSizeOf(gb))
-//@   ensures [C09.list-grows] len(gb.scRefList) >= old(len(gb.scRefList))
+//@   ensures [C09.list-grows] len(gb.scRefList) >= old(len(gb.scRefList)) && listPrefix(gb)
 //@   ensures [C01.frame] homeFrame(gb) && affUnchanged(gb) && fbUnchanged(gb)
 //@   ensures [C20.pool-addrs] (forall sc in gb.scRefs :: !old(sc in gb.scRefs) ==> $addrs[sc] == gb.addrs && $connectRequested[sc]) && gb.addrs == old(gb.addrs)
 //@   fresh_writes pb.ApiConfig pb.ChannelPoolConfig pb.MethodConfig pb.AffinityConfig GCPBalancerConfig
